@@ -30,4 +30,8 @@ def main():
 
 
 if __name__ == "__main__":
-    sys.exit(main())
+    core.prepare_lean_dir()
+    with core.LeanLock():
+        rc = main()
+    core.drop_lean_dir()
+    sys.exit(rc)
